@@ -82,12 +82,25 @@ def alias_programs(tier):
     return _uniq(out)
 
 
+def abstraction_programs(tier):
+    """Conditions over continuous (uniform) draws: Polar abstracts them as coins when they are iteration independent."""
+    out = []
+    others = ["c = Bernoulli(1/2)", "x = x + c", "y = y + x", "x = 2*x", "if c == 1:\n x = x + 1\nend"]
+    for a in gen.S_ABSTR:
+        out.append(gen.render([a], "true", "const"))
+        for b in (others if tier == "quick" else others + gen.S_ABSTR):
+            out.append(gen.render([a, b], "true", "const"))
+            out.append(gen.render([b, a], "true", "const"))
+        out.append(gen.render(["c = Bernoulli(1/2)", a], "c == 1", "const"))
+    return _uniq(out)
+
+
 def program_corpus(kind, tier):
     """-> list of (text, goals)"""
     out = []
     deg = 2 if tier == "quick" else 3
     lim = 6 if tier == "quick" else 10
-    for text in base_programs(tier):
+    for text in base_programs(tier) + abstraction_programs(tier):
         out.append((text, gen.goals_for(text, deg, lim)))
     return out
 
@@ -183,6 +196,7 @@ def analyse_program_goals(text, goals, N, seed=0, settings=None, force_cyclic=Fa
         rb = RecBuilder(program)
         solvers = {}
         sample_vals = None
+        abstr_vals = None
         from .pool import tainted
 
         for goal in goals:
@@ -209,10 +223,29 @@ def analyse_program_goals(text, goals, N, seed=0, settings=None, force_cyclic=Fa
                                                                                 "program": text}})
                 continue
             if any(str(sy).startswith("_prob") for sy in sol.free_symbols):
-                # result expressed through an abstracted probability `_probK = P(cond)` (printed by Polar as a
-                # `where` clause): not comparable without evaluating that probability; counted, not judged
-                stats["abstraction_results"] = stats.get("abstraction_results", 0) + 1
-                continue
+                # result expressed through abstracted probabilities `_probK = P(cond)` (printed by Polar as a `where`
+                # clause): the probabilities are computed by the model at the program point of the coin and substituted
+                if abstr_vals is None:
+                    try:
+                        with cpu_limit(20):
+                            from . import irmodel
+
+                            abstr_vals = irmodel.abstraction_values(irmodel.conv_program(program))
+                    except (NotApplicable, CapHit, CpuTimeout, Exception):
+                        abstr_vals = False
+                if not abstr_vals:
+                    stats["abstraction_results_not_judged"] = stats.get("abstraction_results_not_judged", 0) + 1
+                    continue
+                import sympy as _sp
+
+                sol = sol.xreplace({sy: _sp.Rational(abstr_vals[str(sy)].const_value().numerator,
+                                                     abstr_vals[str(sy)].const_value().denominator)
+                                    for sy in sol.free_symbols if str(sy) in abstr_vals})
+                if any(isinstance(a, _sp.Pow) and a.base == 0 for a in _sp.preorder_traversal(sol)):
+                    # the generic formula in _probK is singular at the actual probability (removable 0/0): not judged
+                    stats["abstraction_results_not_judged"] = stats.get("abstraction_results_not_judged", 0) + 1
+                    continue
+                stats["abstraction_results_judged"] = stats.get("abstraction_results_judged", 0) + 1
             try:
                 with cpu_limit(GOAL_CPU):
                     mism, info = compare_closed_form(model, goal, sol, N, seed, stats, exact=bool(exact),
@@ -297,6 +330,10 @@ def cli_text_check(text, goals, N, stats, at_n=3):
                                                      else ("%s | n=%d" % (sympy.sympify(g), at_n))), printed, re.M)
         if not m1:
             stats["cli_lines_missing"] = stats.get("cli_lines_missing", 0) + 1
+            continue
+        if "_prob" in m1.group(1):
+            # printed through an abstracted probability (`where _probK = P(cond)`): judged on the API route only
+            stats["cli_abstraction_lines_not_judged"] = stats.get("cli_abstraction_lines_not_judged", 0) + 1
             continue
         parts = [p.strip() for p in m1.group(1).split(";")]
         try:
